@@ -531,6 +531,89 @@ Proof.
   intros a b H. change 1 with (inject_Z 1) in H. rewrite <- inject_Z_plus in H. rewrite <- Zlt_Qlt in H. lia.
 Qed.
 
+(* ---------- the widening loop and the band logic for ANY band-mass function ---------- *)
+Section NormalGen.
+Variable cdfband : Z -> Z -> Q.
+Variable n : Z.
+Variable c : Q.
+
+(* with fuel >= max(l, n+1-r) the loop has really stopped: it made k >= 0 steps, every narrower band
+   (l-j, r+j), j < k, had mass < c and did not cover [0, n+1], and at (l-k, r+k) the guard is false *)
+Lemma widen_spec : forall fuel l r, (Z.max l (n + 1 - r) <= Z.of_nat fuel)%Z ->
+  exists k, (0 <= k)%Z /\ widen cdfband fuel n c l r = ((l - k)%Z, (r + k)%Z) /\
+            widen_more cdfband n c (l - k) (r + k) = false /\
+            forall j, (0 <= j < k)%Z -> widen_more cdfband n c (l - j) (r + j) = true.
+Proof.
+  induction fuel as [|f IH]; intros l r Hf.
+  - exists 0%Z. rewrite !Z.sub_0_r, !Z.add_0_r. split; [lia|]. split; [reflexivity|]. split; [|intros; lia].
+    unfold widen_more. assert (A : (0 <? l)%Z = false) by (apply Z.ltb_ge; lia).
+    assert (B : (r <? n + 1)%Z = false) by (apply Z.ltb_ge; lia). rewrite A, B. apply andb_false_r.
+  - cbn [widen]. destruct (widen_more cdfband n c l r) eqn:E.
+    + destruct (IH (l - 1)%Z (r + 1)%Z ltac:(lia)) as (k & Hk & E1 & E2 & E3).
+      exists (k + 1)%Z. split; [lia|].
+      replace (l - (k + 1))%Z with (l - 1 - k)%Z by lia. replace (r + (k + 1))%Z with (r + 1 + k)%Z by lia.
+      split; [exact E1|]. split; [exact E2|]. intros j Hj.
+      destruct (Z.eq_dec j 0) as [->|Hj0]; [rewrite Z.sub_0_r, Z.add_0_r; exact E|].
+      replace (l - j)%Z with (l - 1 - (j - 1))%Z by lia. replace (r + j)%Z with (r + 1 + (j - 1))%Z by lia.
+      apply E3. lia.
+    + exists 0%Z. rewrite !Z.sub_0_r, !Z.add_0_r. split; [lia|]. split; [reflexivity|]. split; [exact E | intros; lia].
+Qed.
+
+Variables l1 r1 : Q.
+Let l0 := (Qfloor (l1 - (1 # 2)) + 1)%Z.
+Let r0 := (Qceiling (r1 - (1 # 2)) + 1)%Z.
+Let la := if (r0 <=? l0)%Z then (r0 - 1)%Z else l0.
+
+(* the result in one piece: k widenings, then the left-biased trim, the full-range fix-up and the clamps *)
+Theorem qci_normal_gen :
+  exists k, (0 <= k)%Z /\
+    (forall j, (0 <= j < k)%Z -> cdfband (la - j) (r0 + j) < c /\ (0 < la - j \/ r0 + j < n + 1)%Z) /\
+    let lw := (la - k)%Z in
+    let rw := (r0 + k)%Z in
+    (c <= cdfband lw rw \/ (lw <= 0 /\ n + 1 <= rw)%Z) /\
+    let biased := (lw <? rw - 1)%Z && Qle_bool c (cdfband lw (rw - 1)) && Qltb (cdfband lw (rw - 1)) (cdfband lw rw) in
+    let r' := if biased then (rw - 1)%Z else rw in
+    let full := (lw <=? 0)%Z && (n + 1 <=? r')%Z in
+    qci_normal cdfband n c l1 r1 =
+    mkR (Z.max lw 0) (Z.min r' (n + 1)) (if full then 1 else if biased then cdfband lw (rw - 1) else cdfband lw rw)
+        (biased && negb full).
+Proof.
+  destruct (widen_spec (widen_fuel n la r0) la r0) as (k & Hk & E1 & E2 & E3).
+  { unfold widen_fuel. lia. }
+  exists k. split; [exact Hk|]. split.
+  { intros j Hj. specialize (E3 j Hj). unfold widen_more in E3. apply andb_prop in E3 as [A B].
+    apply Qltb_true in A. split; [exact A|]. apply orb_prop in B as [B|B]; apply Z.ltb_lt in B; lia. }
+  cbv zeta. split.
+  { unfold widen_more in E2. apply andb_false_iff in E2 as [A|B].
+    - left. apply Qltb_false in A. exact A.
+    - right. apply orb_false_iff in B as [B1 B2]. apply Z.ltb_ge in B1. apply Z.ltb_ge in B2. lia. }
+  unfold qci_normal. fold l0 r0. fold la. rewrite E1.
+  set (lw := (la - k)%Z). set (rw := (r0 + k)%Z).
+  set (biased := (lw <? rw - 1)%Z && Qle_bool c (cdfband lw (rw - 1)) && Qltb (cdfband lw (rw - 1)) (cdfband lw rw)).
+  clearbody biased. destruct biased; cbv beta iota; cbn [negb andb].
+  - destruct ((lw <=? 0)%Z && (n + 1 <=? rw - 1)%Z) eqn:F; unfold clampR; cbn [negb andb]; f_equal;
+      try (destruct (lw <? 0)%Z eqn:X; [apply Z.ltb_lt in X | apply Z.ltb_ge in X]; lia);
+      try (destruct (n + 1 <? rw - 1)%Z eqn:X; [apply Z.ltb_lt in X | apply Z.ltb_ge in X]; lia).
+  - destruct ((lw <=? 0)%Z && (n + 1 <=? rw)%Z) eqn:F; unfold clampR; cbn [negb andb]; f_equal;
+      try (destruct (lw <? 0)%Z eqn:X; [apply Z.ltb_lt in X | apply Z.ltb_ge in X]; lia);
+      try (destruct (n + 1 <? rw)%Z eqn:X; [apply Z.ltb_lt in X | apply Z.ltb_ge in X]; lia).
+Qed.
+
+(* Confidence is never below c (c <= 1) — for EVERY band-mass function, whatever l1 and r1 are: the
+   widening loop re-checks the mass, so this clause does not depend on the accuracy of InvCDF or CDF *)
+Theorem qci_normal_conf_ge_c_gen : c <= 1 -> c <= r_conf (qci_normal cdfband n c l1 r1).
+Proof.
+  intros Hc. destruct qci_normal_gen as (k & _ & _ & H). cbv zeta in H. destruct H as [Hstop E]. rewrite E. cbn [r_conf].
+  set (lw := (la - k)%Z) in *. set (rw := (r0 + k)%Z) in *.
+  destruct ((lw <? rw - 1)%Z && Qle_bool c (cdfband lw (rw - 1)) && Qltb (cdfband lw (rw - 1)) (cdfband lw rw)) eqn:Bi.
+  - destruct ((lw <=? 0)%Z && (n + 1 <=? rw - 1)%Z); [exact Hc|].
+    apply andb_prop in Bi as [Bi _]. apply andb_prop in Bi as [_ B]. apply Qle_bool_iff in B. exact B.
+  - destruct ((lw <=? 0)%Z && (n + 1 <=? rw)%Z) eqn:F; [exact Hc|].
+    destruct Hstop as [H|[H1 H2]]; [exact H|]. exfalso.
+    apply andb_false_iff in F as [F|F]; [apply Z.leb_gt in F | apply Z.leb_gt in F]; lia.
+Qed.
+End NormalGen.
+
 Section NormalBand.
 Variable Phi : Q -> Q.                                   (* norm.CDF *)
 Definition band (l r : Z) : Q := Phi (inject_Z r - (1 # 2)) - Phi (inject_Z l - (1 # 2)).
@@ -555,7 +638,7 @@ Proof.
   repeat split; lra.
 Qed.
 
-(* the left end actually used: l0, except that an empty rounded band (r <= l0: the interval
+(* the left end of the rounded band: l0, except that an empty rounded band (r <= l0: the interval
    [l1, r1] is a single point on a half-integer, or reversed) keeps the bucket below r.  The band is
    never empty, never starts right of l0, and is the outward rounding whenever l1 < r1. *)
 Lemma band_left : (l <= l0)%Z /\ (l < r)%Z /\ (l1 < r1 -> l = l0) /\ (l1 <= r1 -> (l0 <= r)%Z).
@@ -571,25 +654,30 @@ Proof.
   - split; [lia|]. split; [lia|]. split; [reflexivity | exact Hle].
 Qed.
 
-Let biased : bool := (l <? r - 1)%Z && Qle_bool c (band l (r - 1)) && Qltb (band l (r - 1)) (band l r).
-Let r' := if biased then (r - 1)%Z else r.
-Let full : bool := (l <=? 0)%Z && (n + 1 <=? r')%Z.
-
-(* the result: the rounded band, one bucket shorter on the right with Ambiguous set exactly when
-   that is not empty, still has mass >= c and strictly less than the symmetric band; Confidence is
-   the Phi-mass of the (unclamped) band, 1 when the band covers [0, n+1]; orders clamped to [0, n+1] *)
+(* the result: the rounded band widened by k >= 0 buckets on each side — every narrower band had mass
+   < c and did not cover [0, n+1]; the band taken has mass >= c or covers [0, n+1] — then one bucket
+   shorter on the right with Ambiguous set exactly when that is not empty, still has mass >= c and
+   strictly less than the symmetric band; Confidence is the Phi-mass of the (unclamped) band, 1 when the
+   band covers [0, n+1]; orders clamped to [0, n+1] *)
 Theorem qci_normal_band :
-  let res := qci_normal band n c l1 r1 in
-  r_lo res = Z.max l 0 /\ r_hi res = Z.min r' (n + 1) /\
-  r_amb res = (biased && negb full) /\
-  r_conf res = (if full then 1 else band l r').
+  exists k, (0 <= k)%Z /\
+    (forall j, (0 <= j < k)%Z -> band (l - j) (r + j) < c /\ (0 < l - j \/ r + j < n + 1)%Z) /\
+    let lw := (l - k)%Z in
+    let rw := (r + k)%Z in
+    (c <= band lw rw \/ (lw <= 0 /\ n + 1 <= rw)%Z) /\
+    let biased := (lw <? rw - 1)%Z && Qle_bool c (band lw (rw - 1)) && Qltb (band lw (rw - 1)) (band lw rw) in
+    let r' := if biased then (rw - 1)%Z else rw in
+    let full := (lw <=? 0)%Z && (n + 1 <=? r')%Z in
+    let res := qci_normal band n c l1 r1 in
+    r_lo res = Z.max lw 0 /\ r_hi res = Z.min r' (n + 1) /\
+    r_amb res = (biased && negb full) /\
+    r_conf res = (if full then 1 else band lw r').
 Proof.
-  unfold qci_normal. fold l0 r. fold l. fold biased.
-  unfold r', full, r'. destruct biased; cbv zeta;
-  match goal with |- context [if ?b then (1, false) else _] => destruct b eqn:F end;
-  unfold clampR; simpl;
-  repeat match goal with |- context [(?a <? ?b)%Z] => destruct (Z.ltb_spec a b) end;
-  repeat split; try reflexivity; try lia.
+  destruct (qci_normal_gen band n c l1 r1) as (k & Hk & Hj & H). fold l0 r l in Hj, H.
+  exists k. split; [exact Hk|]. split; [exact Hj|]. cbv zeta in *. destruct H as [Hs E].
+  split; [exact Hs|]. rewrite E. cbn [r_lo r_hi r_amb r_conf]. repeat split; try reflexivity.
+  destruct ((l - k <? r + k - 1)%Z && Qle_bool c (band (l - k) (r + k - 1)) &&
+            Qltb (band (l - k) (r + k - 1)) (band (l - k) (r + k))); reflexivity.
 Qed.
 
 (* 0 <= LoOrder < HiOrder <= n+1 for EVERY c, for a central interval [l1, r1] (l1 <= r1) about a
@@ -600,19 +688,19 @@ Theorem qci_normal_orders : forall mu, l1 <= r1 -> l1 + r1 == 2 * mu ->
   (0 <= r_lo res)%Z /\ (r_lo res < r_hi res)%Z /\ (r_hi res <= n + 1)%Z.
 Proof.
   intros mu Hlr Hsum Hmu Hn res. unfold res.
-  destruct qci_normal_band as (E1 & E2 & _ & _). rewrite E1, E2.
+  destruct qci_normal_band as (k & Hk & _ & H). cbv zeta in H. destruct H as (_ & E1 & E2 & _ & _). rewrite E1, E2.
   destruct band_rounding as (R1 & R2 & R3 & R4).
   destruct band_left as (L1 & L2 & _ & _).
   assert (Ll : (l0 <= n)%Z) by (apply Zle_from_Qlt; lra).
   assert (Lr : (1 <= r)%Z).
   { assert (0 <= r - 1)%Z; [|lia]. apply Zle_from_Qlt. unfold Z.sub. rewrite inject_Z_plus, inject_Z_opp.
     change (inject_Z 1) with 1. change (inject_Z 0) with 0. lra. }
-  unfold r'. destruct biased eqn:Bi; [|lia].
-  unfold biased in Bi. apply andb_prop in Bi as [Bi _]. apply andb_prop in Bi as [B0 _].
+  match goal with |- context [if ?b then _ else _] => destruct b eqn:Bi end; [|lia].
+  apply andb_prop in Bi as [Bi _]. apply andb_prop in Bi as [B0 _].
   apply Z.ltb_lt in B0.
-  assert (Lr' : (1 <= r - 1)%Z).
-  { destruct (Z_lt_ge_dec (r - 1) 1) as [L|]; [|lia]. exfalso.
-    assert (Er : r = 1%Z) by lia.
+  assert (Lr' : (1 <= r + k - 1)%Z).
+  { destruct (Z_lt_ge_dec (r + k - 1) 1) as [L|]; [|lia]. exfalso.
+    assert (Er : r = 1%Z) by lia. assert (Ek : k = 0%Z) by lia.
     (* then r1 <= 1/2 and l < 0, so l = l0 <= -1 and l1 < -1/2: r1 = 2 mu - l1 > 1/2 *)
     assert (Hr1 : r1 <= 1 # 2). { rewrite Er in R3. change (inject_Z 1) with 1 in R3. lra. }
     assert (El : l = l0).
@@ -623,9 +711,12 @@ Proof.
   lia.
 Qed.
 
+(* never below c (c <= 1): no hypothesis on Phi, l1 or r1 *)
+Theorem qci_normal_conf_ge_c : c <= 1 -> c <= r_conf (qci_normal band n c l1 r1).
+Proof. apply qci_normal_conf_ge_c_gen. Qed.
+
 Hypothesis Hmon : forall a b, a <= b -> Phi a <= Phi b.
 
-(* never below c, provided l1 and r1 bracket the central mass 1 - 2 alpha, alpha = qci_alpha c *)
 Lemma qci_alpha_spec : c <= 1 - 2 * qci_alpha c /\ qci_alpha c <= 1 # 2.
 Proof.
   unfold qci_alpha. cbv zeta. destruct (Qltb (1 # 2) ((1 - c) / 2)) eqn:E.
@@ -633,19 +724,29 @@ Proof.
   - apply Qltb_false in E. assert (EA : (1 - c) / 2 == (1 # 2) - c * (1 # 2)) by field. rewrite EA in *. lra.
 Qed.
 
-Theorem qci_normal_conf_ge_c : c <= 1 ->
-  Phi l1 <= qci_alpha c -> 1 - qci_alpha c <= Phi r1 ->
-  c <= r_conf (qci_normal band n c l1 r1).
+(* when l1 and r1 really bracket the central mass 1 - 2 alpha of a non-decreasing Phi (alpha = qci_alpha c),
+   the rounded band already has mass >= c: the loop does not widen, and the result is the outward
+   rounding itself (trimmed / clamped) *)
+Theorem qci_normal_no_widening : Phi l1 <= qci_alpha c -> 1 - qci_alpha c <= Phi r1 ->
+  c <= band l r /\
+  let biased := (l <? r - 1)%Z && Qle_bool c (band l (r - 1)) && Qltb (band l (r - 1)) (band l r) in
+  let r' := if biased then (r - 1)%Z else r in
+  let full := (l <=? 0)%Z && (n + 1 <=? r')%Z in
+  qci_normal band n c l1 r1 =
+  mkR (Z.max l 0) (Z.min r' (n + 1)) (if full then 1 else if biased then band l (r - 1) else band l r) (biased && negb full).
 Proof.
-  intros Hc H1 H2. destruct qci_normal_band as (_ & _ & _ & E). rewrite E.
-  destruct full; [exact Hc|].
-  unfold r'. destruct biased eqn:Bi.
-  - unfold biased in Bi. apply andb_prop in Bi as [Bi _]. apply andb_prop in Bi as [_ B1].
-    apply Qle_bool_iff in B1. exact B1.
-  - destruct band_rounding as (R1 & _ & R3 & _). destruct band_left as (L1 & _ & _ & _).
+  intros H1 H2.
+  assert (Hb : c <= band l r).
+  { destruct band_rounding as (R1 & _ & R3 & _). destruct band_left as (L1 & _ & _ & _).
     destruct qci_alpha_spec as [A1 _].
     assert (R1' : inject_Z l - (1 # 2) <= l1).
     { assert (inject_Z l <= inject_Z l0) by (rewrite <- Zle_Qle; exact L1). lra. }
-    unfold band. pose proof (Hmon _ _ R1'). pose proof (Hmon _ _ R3). lra.
+    unfold band. pose proof (Hmon _ _ R1'). pose proof (Hmon _ _ R3). lra. }
+  split; [exact Hb|].
+  destruct (qci_normal_gen band n c l1 r1) as (k & Hk & Hj & H). fold l0 r l in Hj, H.
+  assert (Ek : k = 0%Z).
+  { destruct (Z.eq_dec k 0) as [E|E]; [exact E|]. exfalso.
+    destruct (Hj 0%Z ltac:(lia)) as [A _]. rewrite Z.sub_0_r, Z.add_0_r in A. lra. }
+  subst k. cbv zeta in H. rewrite !Z.sub_0_r, !Z.add_0_r in H. destruct H as [_ E]. exact E.
 Qed.
 End NormalBand.
